@@ -1,6 +1,7 @@
 package harness
 
 import (
+	"bytes"
 	"context"
 	"fmt"
 	"math/rand"
@@ -66,6 +67,8 @@ type BConf struct {
 	CountLimit uint64  `json:"countLimit"`
 	EvictFrac  float64 `json:"evictFrac"`
 	EvictNeed  bool    `json:"evictNeeded"`
+	HeapLimit  uint64  `json:"heapInUseSoftLimit"` // set far above any possible usage: never exceeded
+	SysLimit   uint64  `json:"sysMemSoftLimit"`
 	Name       string  `json:"name"`
 
 	JanitorInterval time.Duration `json:"janitorInterval"` // 0 = the janitor never fires on its own
@@ -88,7 +91,7 @@ func (c BConf) Config(st cache.StatsTracker) cache.Config {
 	cfg := cache.Config{
 		Name: c.Name, Stats: st, TimeToLive: time.Duration(c.TTL), ExpirationJitter: c.Jitter,
 		EvictionStrategy: cache.EvictionStrategy(c.Strategy), DeleteExpiredAfter: time.Duration(c.DelAfter),
-		CountSoftLimit: c.CountLimit, EvictFraction: c.EvictFrac,
+		CountSoftLimit: c.CountLimit, EvictFraction: c.EvictFrac, HeapInUseSoftLimit: c.HeapLimit, SysMemSoftLimit: c.SysLimit,
 		// The janitor and the items counter never fire on their own in the runs (intervals far
 		// beyond any sleep); cleanup cycles are driven explicitly.
 		DeleteExpiredJobInterval: 1000000 * time.Hour, ItemsCountReportInterval: 1000000 * time.Hour,
@@ -160,9 +163,14 @@ func StdKeys(rng *rand.Rand, n int) KeyPool {
 
 	long2 := append([]byte{}, long...)
 	long2[63] = 'Z'
+	// keys longer than 64 bytes that share their first 64 / 100 bytes
+	longer1 := append(append([]byte{}, long...), []byte("-tail-1")...)
+	longer2 := append(append([]byte{}, long...), []byte("-tail-2")...)
+	huge1 := append(bytes.Repeat([]byte("0123456789"), 10), 'x')
+	huge2 := append(bytes.Repeat([]byte("0123456789"), 10), 'y')
 	all := KeyPool{
 		{}, {0}, []byte("a"), []byte("ab"), []byte("abc"), {0xff, 0x00, 0x80}, {0x00, 0x00}, long, long2,
-		[]byte("key1"), []byte("key2"), []byte("k\n\"q"),
+		[]byte("key1"), []byte("key2"), []byte("k\n\"q"), longer1, longer2, huge1, huge2, longer1, longer2,
 	}
 
 	rng.Shuffle(len(all), func(i, j int) { all[i], all[j] = all[j], all[i] })
